@@ -46,3 +46,10 @@ reg("C20", asan=True, crash_is_violation=True,
     rule="native: (shape x ihmax) for exhaustive binary contents, (sequence-length class) for re-allocation sequences; python: (degenerate class x nf x nd x leading dims x dtype) per operation, invalid-argument kinds; distinct = distinct keys; all are non-trivial by construction (edge inputs)",
     must_observe=["native_exhaustive", "native_sequence", "py_alpha", "py_ptm1", "invalid_smooth_even_freq"],
     timeout={"quick": 900, "thorough": 10800}, timeout_is_violation=False)
+
+reg("C03", asan=True, crash_is_violation=True,
+    technique="runtime post-condition monitor on np_ptm1/2/3 and the accessor methods using the label map recorded from the real native call; independent wind-sea / ordering / conservation rules",
+    level_text="Every partition array returned by the real np_ptm1/2/3 and spec.partition.ptm1/2/3 is checked, bin for bin, against the label map the native routine returned during that same call: each bin is the input bin or zero in the returned dtype, no bin in two partitions, exact count, exact sum when enough partitions are requested (else dropped ones are the smallest), wind-sea membership by the documented fraction/cutoff rule with an independent dispersion solve, swells in non-increasing trapezoid-Hs order with empties last. Held = on the executions observed.",
+    level_note="Trusted: numpy, vf/oracle/partrules.py, the label map itself (its correctness is C04's business), the trapezoid Hs as documented for the array-level twin. Cases whose wind-sea fraction or a boundary bin lies within the 0.3 % dispersion approximation are inconclusive.",
+    rule="case = (method x spectrum class x dtype x nf x nd x ihmax x requested vs detected in {lt,eq,gt,none}) at numpy level, (method x dtype x leading dims x grid x requested) at accessor level, each position decided separately; distinct = distinct keys; non-trivial = the native routine was observed and the oracle was well conditioned",
+    must_observe=["np_ptm1", "np_ptm2", "np_ptm3", "acc_ptm1", "acc_ptm2", "acc_ptm3"])
